@@ -1,4 +1,6 @@
+#[cfg_attr(feature = "verif_hooks", doc(hidden))]
 pub(crate) mod deserializer;
+#[cfg_attr(feature = "verif_hooks", doc(hidden))]
 pub(crate) mod serializer;
 
 #[doc(hidden)]
